@@ -27,3 +27,20 @@ for q, c in reg.contracts.items():
         loops[q] = len(ex._loops_in_order(fi.node))
 json.dump(loops, open("/verif/baseline/loops.json", "w"), indent=1, sort_keys=True)
 print(len(loops), "functions with loop counts")
+
+# solver hints: which back end discharged an obligation of a given name on the unchanged tree, and in what time
+from vf import prove  # noqa: E402
+
+hints = {}
+for r in prove.run():
+    for o in r["obligations"]:
+        if o["verdict"] != "discharged":
+            continue
+        name = o["name"].split("[")[0] if o["name"].endswith("]") else o["name"]
+        h = hints.setdefault(name, {"backends": [], "max_time": 0.0})
+        if o["backend"] not in h["backends"]:
+            h["backends"].append(o["backend"])
+        h["max_time"] = max(h["max_time"], o["time"])
+hints = {k: v for k, v in hints.items() if v["max_time"] > 0.5 or v["backends"] != ["z3"]}
+json.dump(hints, open("/verif/baseline/hints.json", "w"), indent=1, sort_keys=True)
+print(len(hints), "solver hints")
